@@ -7,6 +7,7 @@ import os
 import random
 import time
 
+import p_discovery
 import scenario
 from lib import *
 
@@ -59,6 +60,11 @@ def run(prop, tier, replay=None):
     if replay:
         with open(replay) as f:
             body = json.load(f)
+        if "discovery" in body["replay"]:      # a violation of the file-discovery leg (specs/Discovery.tla)
+            p_discovery.leg(prop, tier, work, V, cov, replay_sc=body["replay"]["discovery"])
+            code, nviol, known = V.finish()
+            log(f"{prop}: discovery replay, {nviol} violation(s)")
+            return code
         scn = body["replay"]["scenario"]
         for fld, dflt in (("dirarg", False), ("compat", False), ("rel", False)):      # replay files written before a field existed
             scn.setdefault(fld, dflt)
@@ -167,13 +173,15 @@ def run(prop, tier, replay=None):
         r = byid[rid]
         key = known_class(prop, r["sc"], r["obs"]) or shape_key(prop, r["sc"], r["obs"])
         V.violation(key, WHAT[prop], {"scenario": r["sc"], "observed": r["obs"], "model_prediction": r.get("predict")})
+    if prop == "C20" and not replay:
+        validated += p_discovery.leg(prop, tier, work, V, cov)
     code, nviol, known = V.finish()
     if not replay:
         cov.update({
             "states": states, "transitions": trans,
             "traces_validated_against_impl": validated,
             "samples": [{"scenario": r["sc"], "observed": {k: r["obs"][k] for k in ("res", "ran", "exit")}} for r in records[:2]],
-            "evaluations": len(records),
+            "evaluations": len(records) + cov.get("discovery_runs_validated", 0),
             "distinct_nontrivial": len({json.dumps(r["sc"], sort_keys=True) for r in records
                                         if sum(len(d["tests"]) for d in r["sc"]["docs"]) >= 2}),
             "rule": "one evaluation = one run of the real scrut binary on a materialised scenario; non-trivial = at least two test cases; distinct by scenario",
